@@ -146,6 +146,30 @@ def edge_cover(g, maxlen=60, maxwalks=None, rng=None, skip=None, local_depth=4):
     return walks, covered, total
 
 
+def line_graph(g):
+    """The graph whose nodes are the edges of g: covering ITS edges covers every pair of consecutive transitions of g
+    (the abstract state forgets how it was reached - by a copy or a creation, through which handle -, the implementation
+    may not).  Labels are the labels of the second transition of the pair, so walks are label lists of g as before."""
+    lg = Graph()
+    init = "init"
+    lg.init = [init]
+    lg.nodes.add(init)
+    name = {}
+    for n, es in g.adj.items():
+        for i, (lab, d) in enumerate(es):
+            name[(n, i)] = "%s#%d" % (n, i)
+    for i, (lab, d) in enumerate(g.adj.get(g.init[0], ())):
+        lg.adj[init].append((lab, name[(g.init[0], i)]))
+        lg.nedges += 1
+    for (n, i), nm in name.items():
+        lab, d = g.adj[n][i]
+        lg.nodes.add(nm)
+        for j, (lab2, d2) in enumerate(g.adj.get(d, ())):
+            lg.adj[nm].append((lab2, name[(d, j)]))
+            lg.nedges += 1
+    return lg
+
+
 def random_walks(g, n, length, rng):
     walks = []
     init = g.init[0]
